@@ -51,6 +51,7 @@ type Case struct {
 	Initial  string  `json:"initial"` // empty | a-exists
 	Programs [][]int `json:"programs"`
 	Lag      bool    `json:"lag"`
+	Snap     bool    `json:"snap,omitempty"` // lagging replicas move forward by snapshot install, not by log replay
 	Choices  []int   `json:"choices,omitempty"`
 	Trace    string  `json:"trace,omitempty"`
 }
@@ -73,6 +74,7 @@ type world struct {
 func mk(c Case) (sched.Scenario, *world) {
 	n := len(c.Programs)
 	w := &world{c: metastore.NewCluster(n, c.Lag)}
+	w.c.SnapReads = c.Snap
 	if c.Initial == "a-exists" {
 		w.c.Seed(kv.Update{Op: kv.UpdateOpSet, KVPair: kv.Pair{Key: "/tables/sys/idseq", Value: "10001"}})
 		b, _ := json.Marshal(table.Table{Name: "a", ClusterID: 10001})
@@ -334,7 +336,7 @@ func exploreCase(r *evid.Run, c Case) {
 				cc.Trace = sched.TraceStr(x)
 				r.Violate("race/"+v.sig, v.detail+" | trace: "+cc.Trace, cc)
 			}
-			r.Outcome(fmt.Sprint(c.Initial, c.Programs, c.Lag)+outcome, strings.ContainsAny(outcome, "CD"))
+			r.Outcome(fmt.Sprint(c.Initial, c.Programs, c.Lag, c.Snap)+outcome, strings.ContainsAny(outcome, "CD"))
 			return outcome
 		},
 		MaxBound: -1,
@@ -456,13 +458,13 @@ func keys(m map[uint64]bool) []uint64 {
 
 func Run(r *evid.Run) {
 	r.Check = "c14"
-	r.Rule("(i) races: initial catalogue {empty, table a exists} x per-manager programs of 1-2 operations from {create a, create b, delete a, allocate a restore id} for 2 managers (all program pairs) and 3 managers (1 operation each; thorough: two of them up to 2), real Manager.createTable/DeleteTable/incAndGetIDSeq over real kv.LFSM replicas sharing one log, scheduling points at every store call; every scenario is explored twice - all managers on one replica (no lag), and each manager on its own replica whose lag at every stale read is a data choice; ALL interleavings. Oracle on the committed log: no creation while the name exists, results agree with the log, ids distinct, above earlier ids and increasing across non-overlapping calls, final catalogue = model, distinct ids per table; without lag additionally: a refusal/success must be justified by the table's presence/absence at some moment of the call. (ii) every sequence of length <= 3 (thorough 4) over {create a/b, delete a/b, put into a/b, restore a from a two-pair stream, the same restore with a reconcile pass landing at its first read (at most one restore per sequence), reconcile} on a real engine: create succeeds iff absent, delete iff present, ids grow, listing and lookup reflect exactly the live set, a created / recreated / restored table holds exactly the model content (a recreated one is empty), operations on one table never change the other, after a final reconcile running shards = catalogued shards; plus delete/create/delete and create/create/delete/delete of 10 odd names (path separators, names of internal records, empty, non-ASCII), each step followed by the creation of a fresh table whose id must exceed every earlier id. (iii) diffTables: every catalogue of <= 3 tables with ClusterID/RecoverID from {0,10001..10003} x every subset of running shards {1000,2000,10001..10004}: start = catalogued ids above the reserved range not running, stop = running ids above it not catalogued. Non-trivial: something was created/deleted resp. the diff is non-empty; distinct = distinct outcomes")
+	r.Rule("(i) races: initial catalogue {empty, table a exists} x per-manager programs of 1-2 operations from {create a, create b, delete a, allocate a restore id} for 2 managers (all program pairs) and 3 managers (1 operation each; thorough: two of them up to 2), real Manager.createTable/DeleteTable/incAndGetIDSeq over real kv.LFSM replicas sharing one log, scheduling points at every store call; every scenario is explored twice - all managers on one replica (no lag), and each manager on its own replica whose lag at every stale read is a data choice (two managers: once more with the lagging replica moving forward by installing a snapshot of the log prefix into its non-empty store instead of replaying the entries; replicas must keep producing the same result for every log entry); ALL interleavings. Oracle on the committed log: no creation while the name exists, results agree with the log, ids distinct, above earlier ids and increasing across non-overlapping calls, final catalogue = model, distinct ids per table; without lag additionally: a refusal/success must be justified by the table's presence/absence at some moment of the call. (ii) every sequence of length <= 3 (thorough 4) over {create a/b, delete a/b, put into a/b, restore a from a two-pair stream, the same restore with a reconcile pass landing at its first read (at most one restore per sequence), reconcile} on a real engine: create succeeds iff absent, delete iff present, ids grow, listing and lookup reflect exactly the live set, a created / recreated / restored table holds exactly the model content (a recreated one is empty), operations on one table never change the other, after a final reconcile running shards = catalogued shards; plus delete/create/delete and create/create/delete/delete of 10 odd names (path separators, names of internal records, empty, non-ASCII), each step followed by the creation of a fresh table whose id must exceed every earlier id. (iii) diffTables: every catalogue of <= 3 tables with ClusterID/RecoverID from {0,10001..10003} x every subset of running shards {1000,2000,10001..10004}: start = catalogued ids above the reserved range not running, stop = running ids above it not catalogued. Non-trivial: something was created/deleted resp. the diff is non-empty; distinct = distinct outcomes")
 	var cases []Case
 	p2, p1 := programs(2), programs(1)
 	for _, ini := range []string{"empty", "a-exists"} {
 		for _, a := range p2 {
 			for _, b := range p2 {
-				cases = append(cases, Case{Initial: ini, Programs: [][]int{a, b}}, Case{Initial: ini, Programs: [][]int{a, b}, Lag: true})
+				cases = append(cases, Case{Initial: ini, Programs: [][]int{a, b}}, Case{Initial: ini, Programs: [][]int{a, b}, Lag: true}, Case{Initial: ini, Programs: [][]int{a, b}, Lag: true, Snap: true})
 			}
 		}
 		firsts := p1
